@@ -1,1 +1,79 @@
-From G02 Require Import Check.
+(* C02 — table obligations: facts about the source as extracted into Tables.v on
+   this run, each discharged by closed computation.  When the source changes
+   shape exactly the lemma naming that shape stops checking. *)
+From G02 Require Import RespFraming Client WriterProofs.
+Open Scope N_scope.
+
+(* flush.go: patternFlushWriter.Write looks for the pattern inside the write and across the write boundary *)
+Lemma ob_flush_checks_straddle : flush_straddle_check = true.
+Proof. vm_compute. reflexivity. Qed.
+Lemma ob_flush_checks_contains : flush_contains_check = true.
+Proof. vm_compute. reflexivity. Qed.
+
+(* flush.go: the event stream writer flushes after LF LF, CR CR and CRLF; no pattern starts with NUL *)
+Lemma ob_sse_has_lflf : In (10, 10) sse_flush_patterns.
+Proof. vm_compute. tauto. Qed.
+Lemma ob_sse_has_crcr : In (13, 13) sse_flush_patterns.
+Proof. vm_compute. tauto. Qed.
+Lemma ob_sse_has_crlf : In (13, 10) sse_flush_patterns.
+Proof. vm_compute. tauto. Qed.
+Lemma ob_chunk_has_crlf : In (13, 10) chunk_flush_patterns.
+Proof. vm_compute. tauto. Qed.
+Lemma ob_sse_patterns_nonzero : Forall (fun p => fst p <> 0) sse_flush_patterns.
+Proof. repeat constructor; discriminate. Qed.
+Lemma ob_chunk_patterns_nonzero : Forall (fun p => fst p <> 0) chunk_flush_patterns.
+Proof. repeat constructor; discriminate. Qed.
+
+(* flush.go: isHeaderOnlySpec is exactly RFC 7230 3.3.3 rule 1 *)
+Lemma ob_header_only_sets :
+  ho_methods = [b "HEAD"] /\ ho_status_classes = [1] /\ ho_status_codes = [204; 304].
+Proof. vm_compute. repeat split; reflexivity. Qed.
+Lemma ob_header_only_is_rfc : forall meth code, is_header_only meth code = rfc_no_body meth code.
+Proof.
+  intros meth code. unfold is_header_only, rfc_no_body.
+  destruct ob_header_only_sets as (-> & -> & ->). cbn [existsb]. rewrite !orb_false_r.
+  rewrite (N.eqb_sym code 204), (N.eqb_sym code 304), orb_assoc. reflexivity.
+Qed.
+
+(* flush.go: shouldChunk = HTTP/1.1, unknown length, may have a body *)
+Lemma ob_should_chunk :
+  sc_proto_major = 1 /\ sc_proto_minor = 1 /\ sc_unknown_length = (-1)%Z /\ sc_negates_header_only = true.
+Proof. vm_compute. repeat split; reflexivity. Qed.
+
+(* proxy_conn.go: writeHeaderOnlyResponse = status line, Header.Write, "Trailer: " k1 ", " k2 ... CRLF, CRLF *)
+Lemma ob_header_only_writer_shape : ho_shape_ok.
+Proof. unfold ho_shape_ok. vm_compute. repeat split; reflexivity. Qed.
+
+(* proxy_connect.go *)
+Lemma ob_connect_literal : connect_ok_literal = b "HTTP/1.1 200 OK" ++ crlf ++ crlf.
+Proof. vm_compute. reflexivity. Qed.
+
+(* proxy_conn.go writeResponse: close decision, Connection: close, framing repair, order of the writers *)
+Lemma ob_close_when_closing : wr_close_when_closing = true.
+Proof. vm_compute. reflexivity. Qed.
+Lemma ob_close_when_req_close : wr_close_when_req_close = true.
+Proof. vm_compute. reflexivity. Qed.
+Lemma ob_connect_keeps_open : wr_connect_keeps_open = true.
+Proof. vm_compute. reflexivity. Qed.
+Lemma ob_adds_connection_close : wr_adds_connection_close = true.
+Proof. vm_compute. reflexivity. Qed.
+Lemma ob_frames_unknown_length : wr_frames_unknown_length = true.
+Proof. vm_compute. reflexivity. Qed.
+Lemma ob_writer_order :
+  wr_outer_cases = [b "connect-ok"; b "header-only"; b "default"] /\ wr_inner_cases = [b "sse"; b "chunk"; b "plain"].
+Proof. vm_compute. split; reflexivity. Qed.
+
+(* proxy.go roundTrip: an unexpected body on a header-only upstream response is dropped *)
+Lemma ob_discards_header_only_body : rt_discards_header_only_body = true.
+Proof. vm_compute. reflexivity. Qed.
+
+(* hopbyhop_modifier.go: the RFC 7230 hop-by-hop fields are in the list *)
+Lemma ob_hop_by_hop :
+  forallb (fun k => existsb (str_eqb k) hop_by_hop)
+          [b "Connection"; b "Keep-Alive"; b "Proxy-Authenticate"; b "Proxy-Authorization"; b "Te"; b "Trailer";
+           b "Transfer-Encoding"; b "Upgrade"] = true.
+Proof. vm_compute. reflexivity. Qed.
+
+(* proxy_handler.go writeResponse: bodies of unknown length are flushed after every write *)
+Lemma ob_handler_flushes_every_write : hw_unknown_length_flushes_every_write = true.
+Proof. vm_compute. reflexivity. Qed.
